@@ -285,7 +285,7 @@ func dFaithful(t *testing.T, out *vOut, r *vRand, all []dEntryPts) {
 			comps = append(comps, ep)
 		}
 	}
-	total := vBudget(150, 10)
+	total := vBudget(110, 10)
 	for i := 0; i < total; i++ {
 		ep := comps[i%len(comps)]
 		e := ep.e
